@@ -64,8 +64,13 @@ def crossratio(
         if not np.all(is_concurrent(a, b, c, d)):
             raise NotConcurrent("The lines are not concurrent: " + str([a, b, c, d]))
 
-        from_point = a.meet(b)
-        a, b, c, d = a.base_point, b.base_point, c.base_point, d.base_point
+        if a.dim == 2:
+            # by duality the cross ratio of concurrent lines is the cross ratio of the collinear points of the dual
+            # plane with the same coordinates (base points may coincide with the common point of the lines)
+            a, b, c, d = (PointCollection.from_array(x.array) for x in (a, b, c, d))
+        else:
+            from_point = a.meet(b)
+            a, b, c, d = a.base_point, b.base_point, c.base_point, d.base_point
 
     elif (
         isinstance(a, PlaneTensor)
@@ -75,15 +80,20 @@ def crossratio(
     ):
         l = a.meet(b)
         l = cast(LineTensor, l)
-        e = PlaneCollection.from_array(l.direction.array)
-        a, b, c, d = e.meet(a), e.meet(b), e.meet(c), e.meet(d)
-        m = e.basis_matrix
-        p = e.meet(l)
-        from_point = p._matrix_transform(m)
-        a = (p + a.direction)._matrix_transform(m)
-        b = (p + b.direction)._matrix_transform(m)
-        c = (p + c.direction)._matrix_transform(m)
-        d = (p + d.direction)._matrix_transform(m)
+        if np.all(infty_plane.contains(l)):
+            # parallel planes: the common line lies at infinity and has no direction; by duality the planes are
+            # collinear points of the dual space with the same coordinates
+            a, b, c, d = (PointCollection.from_array(x.array) for x in (a, b, c, d))
+        else:
+            e = PlaneCollection.from_array(l.direction.array)
+            a, b, c, d = e.meet(a), e.meet(b), e.meet(c), e.meet(d)
+            m = e.basis_matrix
+            p = e.meet(l)
+            from_point = p._matrix_transform(m)
+            a = (p + a.direction)._matrix_transform(m)
+            b = (p + b.direction)._matrix_transform(m)
+            c = (p + c.direction)._matrix_transform(m)
+            d = (p + d.direction)._matrix_transform(m)
 
     elif not (
         isinstance(a, PointTensor)
